@@ -13,6 +13,8 @@ var c16 = &Property{
 	Assume:  []string{"quantified over inputs only; the schedule dimension (fragmentation, parked handlers, stream interleaving) is exercised but is not what decides the property"},
 	Scenarios: []*Scenario{
 		{Name: "tcp-answer", Weight: 4, Bubble: true, Run: c16Tcp},
+		{Name: "sweep-headers", Bubble: true, Run: c16Sweep, SweepN: c16SweepN, QuickSweep: true, Exhaustive: true,
+			SweepNote: "both identifiers over {0, 1, 2^31, 2^32-1} x every flag byte with R set (128) x result codes {none, 2001, 3004, 5012, 2^32-1}: 10 240 requests answered through Message.Answer on a live connection"},
 		{Name: "sm-cea-dwa", Weight: 3, Bubble: true, Run: func(e *Env) { smaRun(e, "C16") }},
 	},
 }
